@@ -22,6 +22,14 @@ RootsC == <<3, 3, 3>>
 DepsD == <<  <<>>, <<>>, <<1, 2>>, <<2, 1>>, <<3, 4>>, <<4, 3>> >>   \* crossing orders
 RootsD == <<5, 6>>
 
+\* cyclic programs (C06): see MCEngineConc
+DepsE == <<  <<4, 2>>, <<1>>, <<1>>, <<>>  >>               \* ring of two behind a leaf read, a consumer
+RootsE == <<1, 2, 3>>
+DepsF == <<  <<2>>, <<3>>, <<1>>, <<2>>  >>                  \* ring of three entered at every member
+RootsF == <<1, 2, 3>>
+DepsG == <<  <<1>>, <<1>>, <<2, 4>>, <<3>>  >>               \* self-loop behind a chain, and a second ring
+RootsG == <<2, 3, 4>>
+
 After(t) == IF Len(stack'[t]) = 0 THEN [q |-> 0, pc |-> "done"]
             ELSE [q |-> stack'[t][Len(stack'[t])].q, pc |-> stack'[t][Len(stack'[t])].pc]
 
@@ -43,5 +51,5 @@ GSpec == GInit /\ [][GNext]_gvars
 View == vars
 
 (* one line per finished behaviour *)
-Emit == AllDone => PrintT(ToJson([steps |-> hist, execs |-> execs]))
+Emit == AllDone => PrintT(ToJson([steps |-> hist, execs |-> execs, cut |-> cut]))
 =============================================================================
